@@ -1,6 +1,7 @@
 package seq
 
 import (
+	"bytes"
 	"fmt"
 	"strings"
 
@@ -63,13 +64,36 @@ func payloadAlphabet(full bool) [][]byte {
 			ps = append(ps, []byte{x, y})
 		}
 	}
+	// lengths at which the CBOR header of a byte string (and the JSON/base64 forms) change size
+	for _, n := range []int{23, 24, 255, 256} {
+		ps = append(ps, bytes.Repeat([]byte{'x'}, n))
+	}
 	if full {
 		ps = append(ps, []byte("\xe2\x82"), []byte("\xe2\x82\xac"), []byte("\xed\xa0\x80"), []byte("\xf0\x9f\x98\x80"), []byte("a\xffb"))
+		for _, n := range []int{25, 257, 65535, 65536, 65537} {
+			ps = append(ps, bytes.Repeat([]byte{'y'}, n))
+		}
+		// every 2-byte string over sixteen boundary bytes, every 3-byte string over five
+		b16 := []byte{0x00, 0x01, 0x0a, 0x1f, 0x20, 0x22, 0x5c, 0x7f, 0x80, 0xbf, 0xc2, 0xe0, 0xed, 0xf4, 0xfe, 0xff}
+		for _, x := range b16 {
+			for _, y := range b16 {
+				ps = append(ps, []byte{x, y})
+			}
+		}
+		b5 := []byte{0x00, 0x41, 0x80, 0xe2, 0xff}
+		for _, x := range b5 {
+			for _, y := range b5 {
+				for _, z := range b5 {
+					ps = append(ps, []byte{x, y, z})
+				}
+			}
+		}
 	}
 	return ps
 }
 
-var clockGrid = []int{0, 1, 2, 1<<31 - 1, 1 << 31, 1<<53 + 1, int(^uint(0) >> 1)}
+// clock times at the boundaries of the integer encodings (CBOR head sizes, int32, float64 exactness, int64), and negative ones
+var clockGrid = []int{0, 1, 2, 23, 24, 255, 256, 65535, 65536, 1<<31 - 1, 1 << 31, 1<<32 - 1, 1 << 32, 1 << 53, 1<<53 + 1, int(^uint(0) >> 1), -1, -1 << 63}
 
 // linkLists: all lists over pool indices {0,1,3} of length <= maxLen (duplicates and permutations included).
 func linkLists(maxLen int) [][]int {
@@ -99,6 +123,12 @@ func grammar(tier string) []entrySpec {
 	ll := linkLists(2)
 	if full {
 		ll = linkLists(3)
+		// four predecessors (with duplicates and every order), no references
+		for _, n := range linkLists(4) {
+			if len(n) == 4 {
+				g = append(g, entrySpec{Payload: []byte("hello"), Time: 5, Writer: 1, LogID: "X", Next: n, Refs: []int{}})
+			}
+		}
 	}
 	for _, n := range ll {
 		for _, r := range ll {
